@@ -13,7 +13,8 @@ TARGETS = ['theories/Props/C01.vo', 'theories/Corr/C01.vo']
 # referenced cells: workbook constants; a recipe may override some of them
 CELLS = {'A2': 5, 'B2': 2.5, 'C2': 'ab', 'D2': True, 'A3': 0, 'B3': 12, 'C3': '3', 'D3': 0.1}     # E2, E3 stay blank
 REFS = ['A2', 'B2', 'A3', 'B3', 'D3', 'E2', 'C2', 'D2', 'C3', '$A$2', 'B$3']
-NUMS = ['1', '2', '3', '7', '10', '100', '0', '12', '0.5', '2.25', '0.1', '1.1', '3e-1', '1.5e3', '2e2', '12.034e-2', '007', '1.50', '0.3', '4']
+NUMS = ['1', '2', '3', '7', '10', '100', '0', '12', '0.5', '2.25', '0.1', '1.1', '3e-1', '1.5e3', '2e2', '12.034e-2', '007', '1.50', '0.3', '4',
+        '1.11e1', '1.16e1', '2.2222e3', '1.27e1', '2.14e1', '1.25e1']      # a fraction AND a positive exponent smaller than the number of fraction digits
 TEXTS = ['"ab"', '"x"', '""', '"3"']
 OV_VALUES = [0, 1, -4, 2.5, -0.75, 1e-3, 'q', '7', True, False, 3, 1000]
 CMP = ['=', '<>', '<', '<=', '>', '>=']
@@ -140,14 +141,20 @@ def make_case(rc):
     cells = dict(CELLS)
     cells['A1'] = formula
     it, iv, fl = 'IOther', ('exc', 'OtherExc'), set()
+    leak = None
     env = dict(CELLS)
     env.update({k: C.jdec(v) for k, v in ov.items()})
     for v in env.values():
         if isinstance(v, float):
             fl.add(v)
     try:
-        src, ctx = I.translate([('S', cells)])
+        # a second sheet holds the same cell texts (the formula included) over other constants: its formula must be translated for ITS sheet
+        decoy = {a: (v if isinstance(v, str) and v.startswith('=') else I._perturbed(v)) for a, v in cells.items()}
+        src, ctx = I.translate([('S', cells), ('Decoy 1', decoy)])
         code = ctx._cell_translations['_0_0_0']
+        code2 = ctx._cell_translations['_1_0_0']
+        if code2 != code.replace("'_0_", "'_1_"):
+            leak = 'the same formula text on a second sheet is translated to %r, on the first sheet to %r' % (code2[:120], code[:120])
     except I.X.E2PyclParserException:
         src, code, it, iv = None, None, 'IReject', ('exc', 'E2PyclParserException')
     except RecursionError:
@@ -174,6 +181,9 @@ def make_case(rc):
             fl |= floats_of(tree, inst)
             if iv[0] == 'ok' and isinstance(iv[1], float):
                 fl.add(iv[1])
+    if leak:
+        it, iv = 'IOther', ('exc', 'OtherExc')           # reported as: the implementation leaves the model and the spec on this input
+        rc = dict(rc, observed=leak)
     cells_coq = C.clist(['(%s, %s)' % (C.cstr(k), C.cval(v)) for k, v in sorted(env.items())])
     reprs = C.clist(['(%s, %s)' % (C.cfloat(f), C.cstr(repr(f))) for f in sorted(fl, key=repr)])
     coq = 'CF (%s) %s %s (%s) %s' % (source, cells_coq, reprs, it, C.cres(iv))
